@@ -33,7 +33,9 @@ Expect(api, ctx, v) ==
                                         IF v <= L THEN Ok(ctx[1] + v) ELSE Rej({<<"ValueTooBig", v, L>>, <<"ValueTooBig", v + ctx[1], U16MAX>>})
     [] api \in {"udp.without_ipv4_checksum", "udp.with_ipv4_checksum", "udp.with_ipv6_checksum"} -> IF v <= U16MAX - 8 THEN Ok(v + 8) ELSE TooBig(v, U16MAX - 8)
     [] api = "udp.calc_checksum_ipv4" -> IF v <= U16MAX - 8 THEN Ok(-1) ELSE TooBig(v, U16MAX - 8)
-    [] api = "tcp.calc_checksum_ipv4" -> LET L == U16MAX - 20 - ctx[1] IN IF v <= L THEN Ok(-1) ELSE TooBig(v, L)
+    [] api \in {"tcp.calc_checksum_ipv4", "tcp.hslice.calc_checksum_ipv4"} -> LET L == U16MAX - 20 - ctx[1] IN IF v <= L THEN Ok(-1) ELSE TooBig(v, L)
+    \* TcpSlice holds header and payload in one slice: the error names the complete TCP length
+    [] api = "tcp.slice.calc_checksum_ipv4" -> LET L == U16MAX - 20 - ctx[1] IN IF v <= L THEN Ok(-1) ELSE TooBig(v + 20 + ctx[1], U16MAX)
     \* MACsec: ctx[1] = 1 for an unmodified payload (the 2 ether type bytes count); too long => documented "unknown" (0)
     [] api = "macsec.set_payload_len" -> LET sl == IF ctx[1] = 1 THEN v + 2 ELSE v IN Ok(IF sl <= 63 THEN sl ELSE 0)
     [] api \in {"auth.new", "auth.set_raw_icv"} ->
